@@ -380,7 +380,7 @@ def run_large(concepts, case, spec):
     edits and a further derivation that consults the names dropped before."""
     D = concepts.Definition
     rng = random.Random(f"{spec['seed']}/c14large/{case['n']}")
-    no, np_ = rng.choice([(80, 5), (150, 8), (300, 4), (6, 200), (400, 3)])
+    no, np_ = rng.choice([(80, 5), (150, 8), (300, 4), (6, 200), (400, 3), (1200, 3), (3, 2200)])
     objs = [f'o{i:03d}' for i in range(no)]
     props = [f'p{j:03d}' for j in range(np_)]
     x = D(objs, props, [tuple(rng.random() < .4 for _ in props) for _ in objs])
